@@ -292,6 +292,7 @@ Verdict(S, ev) ==
                                ELSE IF ev.rc # 0 THEN "a properly closed file could not be opened"
                                ELSE IF ev.wcount # 0 \/ ev.modified THEN "opening a properly closed file modified it"
                                ELSE ""
+      [] ev.e = "Unchanged" -> IF S.mode = "closed" /\ (~ev.same \/ ev.wcount # 0) THEN "reading a properly closed file modified it" ELSE ""
       [] ev.e = "RdLength"  -> RdLengthVerdict(S, ev)
       [] ev.e = "RdFsr"     -> RdFsrVerdict(S, ev)
       [] ev.e = "RdAnno"    -> RdAnnoVerdict(S, ev)
